@@ -307,7 +307,7 @@ func execC13Store(c c13Case, x *verifkit.Ctx) (fail *verifkit.Failure) {
 		}
 		return Loaded[int]{Value: id, Cost: rd.Cost, TTL: time.Duration(rd.TTL)}, nil
 	})
-	sharedFlight, failing, mixed, overExisting := false, false, false, false
+	sharedFlight, failing, mixed, overExisting, costFunction := false, false, false, false, false
 	for ri, rd := range c.Rounds {
 		if rd.Cost > 100 && verifkit.Avoid("C06-loader-oversized") {
 			rd.Cost = 100
@@ -432,12 +432,22 @@ func execC13Store(c c13Case, x *verifkit.Ctx) (fail *verifkit.Failure) {
 			// a successful load is admitted exactly as SetWithTTL(cost, ttl) would be:
 			// differential on two fresh stores in the same state
 			cost, ttl, val := rd.Cost, rd.TTL, 424242
-			s2 := NewStore[int, int](&StoreOptions[int, int]{MaxSize: 100})
+			// in a third of the differentials both stores have a cost function and the cost is passed as 0
+			// (loader Cost 0, Set cost 0): the computed cost - also one above MaxSize - must be treated as
+			// an explicit one (seeded C13f: the load refused on the placeholder 0 instead)
+			var costFn func(int) int64
+			if (ri+rd.Key+int(rd.Cost))%3 == 0 {
+				computed := []int64{1, 7, 100, 101, 250}[(ri+rd.Followers+rd.Key)%5]
+				costFn = func(int) int64 { return computed }
+				cost = 0
+				costFunction = true
+			}
+			s2 := NewStore[int, int](&StoreOptions[int, int]{MaxSize: 100, Cost: costFn})
 			l2 := NewLoadingStore(s2)
 			l2.Loader(func(ctx context.Context, key int) (Loaded[int], error) {
 				return Loaded[int]{Value: val, Cost: cost, TTL: time.Duration(ttl)}, nil
 			})
-			ref := NewStore[int, int](&StoreOptions[int, int]{MaxSize: 100})
+			ref := NewStore[int, int](&StoreOptions[int, int]{MaxSize: 100, Cost: costFn})
 			overExpired := (ri+rd.Key+rd.Followers)%2 == 1
 			for _, st := range []*Store[int, int]{s2, ref} {
 				st.Set(77, 1, 1, 0)
@@ -499,6 +509,7 @@ func execC13Store(c c13Case, x *verifkit.Ctx) (fail *verifkit.Failure) {
 		}
 	}
 	x.ClassIf(overExisting, "load-over-expired-resident-entry")
+	x.ClassIf(costFunction, "differential-with-cost-function")
 	x.ClassIf(sharedFlight, "flight-shared")
 	x.ClassIf(failing, "failing-load")
 	x.ClassIf(mixed, "concurrent-set-or-delete")
